@@ -35,12 +35,12 @@ SPEC = {
         {"name": "lattice", "src": ["c20_lattice.cpp"], "variant": "asan",
          "configs": {"star_d1": {"quick": 30, "thorough": 300}, "star_d2": {"quick": 130, "thorough": 1300},
                      "star_d3": {"quick": 300, "thorough": 3000}, "star_d4": {"quick": 541, "thorough": 2705},
-                     "rand_lo": {"quick": 1500, "thorough": 40000}, "rand_hi": {"quick": 400, "thorough": 8000}},
+                     "rand_lo": {"quick": 1500, "thorough": 30000}, "rand_hi": {"quick": 400, "thorough": 6000}},
          "chunk": 10},
         {"name": "locate_fk", "src": ["c20_locate.cpp"], "variant": "asan",
-         "configs": {"fk_identity": {"quick": 400, "thorough": 12000}, "fk_affine": {"quick": 400, "thorough": 12000}}, "chunk": 10},
+         "configs": {"fk_identity": {"quick": 400, "thorough": 8000}, "fk_affine": {"quick": 400, "thorough": 8000}}, "chunk": 10},
         {"name": "locate_cox", "src": ["c20_locate.cpp"], "variant": "asan", "defs": ["C20_COX"],
-         "configs": {"coxeter": {"quick": 400, "thorough": 12000}}, "chunk": 10},
+         "configs": {"coxeter": {"quick": 400, "thorough": 8000}}, "chunk": 10},
     ],
     "floors": {
         "quick": {"exh.star_d1.round0": 3, "exh.star_d2.round0": 13, "exh.star_d3.round0": 75, "exh.star_d4.round0": 541,
@@ -57,9 +57,9 @@ SPEC = {
                   "shape.located_dim6": 150, "shape.face_point_dim3": 600,
                   "_distinct_nontrivial": 1200},
         "thorough": {"exh.star_d1.round0": 3, "exh.star_d2.round0": 13, "exh.star_d3.round0": 75, "exh.star_d4.round0": 541,
-                     "obs.coface_range.proper_nontrivial": 300000, "obs.cofaces_listed": 10000000, "obs.is_face_of.want_true": 1000000,
-                     "obs.locate_point": 400000, "obs.enumeration": 300000, "obs.locate_point.near_face_2e-40": 40000,
-                     "_distinct_nontrivial": 30000},
+                     "obs.coface_range.proper_nontrivial": 200000, "obs.cofaces_listed": 6000000, "obs.is_face_of.want_true": 500000,
+                     "obs.locate_point": 400000, "obs.enumeration": 200000, "obs.locate_point.near_face_2e-40": 40000,
+                     "_distinct_nontrivial": 20000},
     },
     "exhaustive": {"quick": False, "thorough": True},
     "exhaustive_note": "exhaustive only for this sub-space: every simplex of every dimension incident to one lattice vertex, ambient dimension "
